@@ -3,7 +3,7 @@
    specification evaluated on the plain key/value content of the history (an association list that
    never sees a trie).  Hashes are concrete: H := Common.Sha256.sha256 (itself compared with Go's
    crypto/sha256 by the CSha cases). *)
-From NG Require Import Common.Tactics Common.HarnessLib Common.Sha256 Trie.Model.
+From NG Require Import Common.Tactics Common.HarnessLib Common.Sha256 Trie.Model Trie.Store.
 Open Scope N_scope.
 
 (* one step of a history; Flush / Collapse / reopen-from-store are HNop: they must not be observable *)
@@ -17,6 +17,9 @@ Inductive case :=
 | CRoot (ops : list hop) (errs : list bool) (impl : bytes)
 | CGet (ops : list hop) (k : bytes) (impl : option bytes)
 | CGets (ops : list hop) (impl : list (bytes * option bytes))   (* every key re-read after flush + collapse/reload, any storage mode *)
+| CStore (ops : list hop) (rc : bool) (rootb : bytes) (dump : list (bytes * bytes))
+    (* the node store (DataMPT records: hash, value) after the history and a final Flush; rc: reference-counting
+       mode, the values carry 5 trailing bytes *)
 | CFind (ops : list hop) (prefix from : bytes) (from_nil : bool) (maxn : N) (impl : list (bytes * bytes))
 | CSeek (ops : list hop) (prefix start : bytes) (bw : bool) (impl : list (bytes * bytes))
 | CProof (ops : list hop) (k : bytes) (impl : option (list bytes))
@@ -112,6 +115,23 @@ Definition kv_eqb (a b : bytes * bytes) : bool := beqb (fst a) (fst b) && beqb (
 Definition kvl_eqb := list_eqb kv_eqb.
 Definition to_byte_kvs (l : list (path * bytes)) : list (bytes * bytes) := map (fun e => (from_nibbles (fst e), snd e)) l.
 
+Definition path_eqb' := list_eqb Nat.eqb.
+Fixpoint node_eqb (a b : node) : bool :=
+  match a, b with
+  | Empty, Empty => true
+  | Leaf v, Leaf w => beqb v w
+  | Ext k n, Ext k' n' => path_eqb' k k' && node_eqb n n'
+  | Branch cs vc, Branch cs' vc' =>
+      (fix go (l l' : list node) {struct l} : bool :=
+         match l, l' with
+         | [], [] => true
+         | x :: r, y :: r' => node_eqb x y && go r r'
+         | _, _ => false
+         end) cs cs' && node_eqb vc vc'
+  | HashRef h, HashRef h' => beqb h h'
+  | _, _ => false
+  end.
+
 Definition check_case (c : case) : N :=
   match c with
   | CRoot ops errs impl =>
@@ -137,6 +157,22 @@ Definition check_case (c : case) : N :=
         let rd (f : bytes -> option bytes) := forallb (fun e => obeqb (f (fst e)) (snd e)) impl in
         code_of (rd (trie_get t))
                 (rd (fun k => if N.of_nat (length k) <=? max_key_len then aget m (to_nibbles k) else None))
+      else 3
+  | CStore ops rc rootb dump =>
+      if forallb wf_hop ops then
+        let '(t, _) := exec Empty ops in
+        let '(m, _) := sexec [] ops in
+        let fuel := (height t + 2)%nat in
+        let r := match t with Empty => Empty | _ => HashRef rootb end in
+        (* mechanism: the real store holds every node of the model trie under its hash with the model's encoding
+           (Store.flush), and the model's lazy expansion over the REAL records rebuilds the model trie *)
+        let stored_ok := if rc then true
+                         else forallb (fun n => obeqb (store_lookup dump (hash Hf n)) (Some (enc Hf n))) (nodes t) in
+        let expand_ok := match expand fuel dump r with Some t' => node_eqb t' t | None => false end in
+        (* specification: every key of the content is readable through the stored records, nothing else is *)
+        let reads_ok := forallb (fun e => obeqb (sget fuel dump r (fst e)) (Some (snd e))) m &&
+                        Nat.eqb (length (straverse fuel dump r [] [] false)) (length m) in
+        code_of (stored_ok && expand_ok && reads_ok) reads_ok
       else 3
   | CFind ops prefix from from_nil maxn impl =>
       if forallb wf_hop ops then
